@@ -39,6 +39,10 @@ func (s CacheStatus) ApplyTo(header http.Header) {
 	header.Set(CacheStatusHeader, s.Value)
 	if s.Legacy != "" {
 		header.Set(FromCacheHeader, s.Legacy)
+	} else {
+		// A field received from the origin (e.g. another cache of this kind)
+		// says nothing about this cache.
+		header.Del(FromCacheHeader)
 	}
 }
 
